@@ -174,7 +174,7 @@ void* m_f({pre}__Syms* s, int k) {{
 
 class TbModel:
     """hextb.cpp (its own load/run/handleSyscall) on top of the Verilated hex model built by the real constructor chain"""
-    def __init__(self):
+    def __init__(self, noinline=False):
         pre = 'Vhex_pkg'
         d = self.dir = build.verilate('hex', HEX_SOURCES, pre, extra=['--trace'])
         cpps = sorted(c for c in glob.glob(os.path.join(d, f'{pre}*.cpp')) if '__Trace' not in c and '__Dpi' not in c)
@@ -209,8 +209,10 @@ void tb_syscall(int sc, Vhex_pkg* t, int* exitCode) {
   (void)const_cast<std::unique_ptr<Vhex_pkg>&>(top).release();
 }
 unsigned long tb_ctxsize() { return sizeof(VerilatedContext); }
+void tb_settime(VerilatedContext* c, unsigned long t) { c->time(t); }
+unsigned long tb_gettime(VerilatedContext* c) { return c->time(); }
 }
 '''
         wrap = os.path.join(d, 'tbwrap.cpp'); open(wrap, 'w').write(src)
-        self.ll = build.ir(wrap, includes=[d, VL_INC, os.path.join(VL_INC, 'vltstd')])
+        self.ll = build.ir(wrap, includes=[d, VL_INC, os.path.join(VL_INC, 'vltstd')], extra=['-fno-inline'] if noinline else [])
         self.M = parse_module(self.ll)
